@@ -126,6 +126,8 @@ def check_mask_lockstep(ck: Checker, prog: Program, rule: str, modules=("hvsr_tr
                 n += 1
                 if not sub:
                     why = _not_boolean(f, st.value)
+                    if why and why.startswith("?"):
+                        raise AnalysisError(f"{f.qualname}: whether `{norm_key(st, 60)}` stores a boolean array is not decided: {why[1:]}")
                     if why:
                         ck.violation(rule, f.qualname, norm_key(st, 90) + " [dtype]",
                                      f"the value stored into `{obj}.{mask}` is not a boolean array ({why}): an integer mask selects rows "
@@ -185,6 +187,47 @@ def _scalar_is_bool(f: Func, e: ast.AST, depth: int = 0) -> bool:
     return False
 
 
+def _known_non_bool(e: ast.AST) -> bool:
+    """Positively not a boolean: a number literal, arithmetic, int(...) / float(...) / len(...)."""
+    if isinstance(e, ast.Constant):
+        return not isinstance(e.value, bool)
+    if isinstance(e, ast.BinOp) and not isinstance(e.op, (ast.BitAnd, ast.BitOr, ast.BitXor)):
+        return True
+    if isinstance(e, ast.Call) and call_name(e) in ("int", "float", "len", "sum", "round", "abs", "max", "min"):
+        return True
+    if isinstance(e, ast.IfExp):
+        return _known_non_bool(e.body) or _known_non_bool(e.orelse)
+    return False
+
+
+def _comp_elt_is_bool(f: Func, comp: ast.ListComp) -> bool:
+    """`[b for _, b in pairs]` where `pairs` is (every definition) a comprehension of tuples whose matching entry is a boolean."""
+    if len(comp.generators) != 1 or not isinstance(comp.elt, ast.Name):
+        return False
+    g = comp.generators[0]
+    if not (isinstance(g.target, ast.Tuple) and isinstance(g.iter, ast.Name)):
+        return False
+    pos = [i for i, t in enumerate(g.target.elts) if isinstance(t, ast.Name) and t.id == comp.elt.id]
+    if len(pos) != 1:
+        return False
+    defs = [s_ for s_ in own_nodes(f.node) if isinstance(s_, ast.Assign) and any(isinstance(t, ast.Name) and t.id == g.iter.id for t in s_.targets)]
+    if not defs:
+        return False
+    for d in defs:
+        v = d.value
+        if isinstance(v, ast.List) and not v.elts:
+            continue            # filled by the appends checked below
+        if not (isinstance(v, (ast.ListComp, ast.GeneratorExp)) and isinstance(v.elt, ast.Tuple) and len(v.elt.elts) == len(g.target.elts)
+                and _scalar_is_bool(f, v.elt.elts[pos[0]])):
+            return False
+    for c in calls_in(f.node):
+        if isinstance(c.func, ast.Attribute) and isinstance(c.func.value, ast.Name) and c.func.value.id == g.iter.id and c.func.attr in ("append", "insert", "extend"):
+            arg = c.args[-1] if c.args else None
+            if c.func.attr == "extend" or not (isinstance(arg, ast.Tuple) and len(arg.elts) == len(g.target.elts) and _scalar_is_bool(f, arg.elts[pos[0]])):
+                return False
+    return True
+
+
 def _not_boolean(f: Func, v: ast.AST) -> Optional[str]:
     """None if the expression is known to be a boolean array, else the reason."""
     if isinstance(v, ast.Constant) and isinstance(v.value, bool):
@@ -211,6 +254,10 @@ def _not_boolean(f: Func, v: ast.AST) -> Optional[str]:
                         continue
                     if isinstance(d.value, ast.ListComp):
                         e = d.value.elt
+                        if _scalar_is_bool(f, e) or _comp_elt_is_bool(f, d.value):
+                            continue
+                        if not _known_non_bool(e):
+                            return f"?`{a.id}` is defined by `{norm_key(d, 60)}` (element type not decided)"
                         if (isinstance(e, ast.IfExp) and all(isinstance(x, ast.Constant) and isinstance(x.value, bool) for x in (e.body, e.orelse))) \
                                 or isinstance(e, ast.Compare) or (isinstance(e, ast.Call) and call_name(e) == "bool") \
                                 or (isinstance(e, ast.Constant) and isinstance(e.value, bool)):
@@ -688,7 +735,7 @@ def gather_normal_form(v):
                       lambda x: x.args[1].args[1])
         v2 = v.replace(lambda x: fn(x) in ("array", "asarray") and len(x.args) >= 1 and fn(x.args[0]) in ("_flatten_list", "flat"), lambda x: FLAT(x.args[0].args[0]))
         v2 = v2.replace(lambda x: fn(x) == "_flatten_list" and len(x.args) == 1, lambda x: FLAT(x.args[0]))
-        v2 = v2.replace(lambda x: fn(x) in ("concatenate", "hstack") and len(x.args) == 1 and fn(x.args[0]) != "comp", lambda x: FLAT(x.args[0]))
+        v2 = v2.replace(lambda x: fn(x) in ("concatenate", "hstack") and len(x.args) == 1, lambda x: FLAT(x.args[0]))
         if v2 == v:
             break
         v = v2
